@@ -1198,8 +1198,13 @@ func TestReplay(t *testing.T) {
 		t.Skip("no VERIF_REPLAY")
 	}
 	var c Case
-	if _, err := vkit.LoadReplay(path, &c); err != nil {
+	key, err := vkit.LoadReplay(path, &c)
+	if err != nil {
 		t.Fatal(err)
+	}
+	if strings.Contains(key, "/paths/") {
+		replayPath(t, path)
+		return
 	}
 	if strings.HasPrefix(c.Mode, "contend") {
 		// a race inside the backend replays statistically: same round parameters, many rounds
